@@ -1278,22 +1278,24 @@ func instanceSelector(c *web.C, h http.Handler) http.Handler {
 			BadRequest(w, r, err)
 			return
 		}
-		if data.Versioned() {
-			// Make sure we aren't trying mutable methods on committed nodes.
-			locked, err := datastore.LockedUUID(uuid)
+		if data.Versioned() && data.IsMutationRequest(r.Method, c.URLParams["keyword"]) {
+			// Make sure we aren't trying mutable methods on committed nodes.  The request stays
+			// registered with the node until it has been handled, and a commit waits for it.
+			done, locked, err := datastore.AdmitMutation(uuid)
 			if err != nil {
 				BadRequest(w, r, err)
 				return
 			}
+			defer done()
 			adminPriv := c.Env["adminPriv"].(bool)
-			if !adminPriv && !fullwrite && locked && data.IsMutationRequest(r.Method, c.URLParams["keyword"]) {
+			if !adminPriv && !fullwrite && locked {
 				BadRequest(w, r, "Cannot do %s on endpoint %q of locked node %s", r.Method, c.URLParams["keyword"], uuid)
 				return
 			}
 			if data.IsMutationRequest(r.Method, c.URLParams["keyword"]) {
 				dvid.VerifPoint("server.mutationAdmitted", uint64(v))
 			}
-		} else {
+		} else if !data.Versioned() {
 			// Map everything to root version.
 			v, err = datastore.GetRepoRootVersion(v)
 			if err != nil {
